@@ -193,10 +193,15 @@ def run_impl(case: dict) -> dict:
         linker.training.estimate_u_using_random_sampling(max_pairs=case["max_pairs"], seed=case["seed"])
         out = {"levels": dump_levels(linker, "u")}
         if kind == "u_seeded":
-            api2 = impl.make_api(case["engine"], threads=2)
-            l2 = build_linker(case, api2)
-            l2.training.estimate_u_using_random_sampling(max_pairs=case["max_pairs"], seed=case["seed"])
-            out["levels_second_run"] = dump_levels(l2, "u")
+            # reproducibility is a statement about every re-run: repeat a few times (a scheduling-dependent row order shows up in
+            # a fraction of the runs only), with different thread counts, and keep the first run that differs
+            for threads in (2, 4, 1, 3):
+                api2 = impl.make_api(case["engine"], threads=threads)
+                l2 = build_linker(case, api2)
+                l2.training.estimate_u_using_random_sampling(max_pairs=case["max_pairs"], seed=case["seed"])
+                out["levels_second_run"] = dump_levels(l2, "u")
+                if out["levels_second_run"] != out["levels"]:
+                    break
         return out
     if kind == "m_label_col":
         linker.training.estimate_m_from_label_column("lab")
